@@ -21,7 +21,9 @@ Sch == [fields |-> <<[name |-> "i", ty |-> TInt, opt |-> TRUE], [name |-> "ip", 
         funcs |-> <<>>, lists |-> <<>>, nne |-> TRUE]
 (* byte strings with shared prefixes and the empty string; index = point of the domain + 1 *)
 BPool == <<<<>>, <<97>>, <<97, 98>>, <<98>>, <<98, 97>>, <<98, 98>>, <<99>>, <<99, 99>>, <<100>>>>
-BTxt == <<"\"\"", "\"a\"", "\"ab\"", "\"b\"", "\"ba\"", "\"bb\"", "\"c\"", "\"cc\"", "\"d\"">>
+(* the literal forms are mixed (quoted, raw, hex pairs): membership depends on the bytes only *)
+BTxt == <<"\"\"", "r\"a\"", "61:62", "\"b\"", "r#\"ba\"#", "62:62", "\"c\"", "r\"cc\"", "\"d\"">>
+BForm == <<"q", "r", "h", "q", "r", "h", "q", "r", "q">>
 Mapped(x) == <<0, 0, 0, 0, 0, 0, 0, 0, 0, 0, 255, 255, 10, 0, 0, x>>
 Ctxs == Strict([x \in 1..(Top + 1) |-> [sch |-> 1, vals |-> <<VInt(IntOfNat(x - 1)), VIp(<<10, 0, 0, x - 1>>), VBytes(BPool[x])>>, lists |-> <<>>]])
         \o <<[sch |-> 1, vals |-> <<Nil, Nil, Nil>>, lists |-> <<>>],
@@ -40,7 +42,7 @@ MTxt(x) == "::ffff:10.0.0." \o ToString(x)
 IpItem6(r) == IF r.lo = r.hi THEN [k |-> "ip", v |-> Mapped(r.lo), txt |-> MTxt(r.lo)]
               ELSE [k |-> "iprange", lo |-> Mapped(r.lo), hi |-> Mapped(r.hi), txt |-> MTxt(r.lo) \o ".." \o MTxt(r.hi)]
 (* byte strings: the two end points of the range name two strings of the pool *)
-BItem(x) == [k |-> "bytes", v |-> BPool[x + 1], form |-> "q", txt |-> BTxt[x + 1]]
+BItem(x) == [k |-> "bytes", v |-> BPool[x + 1], form |-> BForm[x + 1], txt |-> BTxt[x + 1]]
 BToks == <<[k |-> "id", name |-> "s"], [k |-> "in"], [k |-> "lbr"]>>
          \o FlatSeq(Strict([i \in 1..Len(rs) |-> IF rs[i].lo = rs[i].hi THEN <<BItem(rs[i].lo)>> ELSE <<BItem(rs[i].lo), BItem(rs[i].hi)>>]))
          \o <<[k |-> "rbr"]>>
